@@ -106,9 +106,9 @@ def coq_build(targets, timeout=1500):
     log = out.decode(errors='replace') + err.decode(errors='replace')
     res = {}
     for t in targets:
-        vo = os.path.join(COQ, t)
-        v = vo[:-1]
-        res[t] = os.path.exists(vo) and os.path.getmtime(vo) >= os.path.getmtime(v) and ('[%s]' % t) not in log and not re.search(r'\*\*\* \[[^\]]*' + re.escape(t), log)
+        # up to date w.r.t. every prerequisite (question mode): a stale .vo left behind by a failed dependency does not count
+        rq, _, _, _ = sh(['make', '-q', t], 120, cwd=COQ)
+        res[t] = (rq == 0) and os.path.exists(os.path.join(COQ, t))
     return res, log
 
 
